@@ -92,6 +92,22 @@ fn dispatch(args: &[String]) {
                 println!("{} -> {:?}  ticks={} {:.3}s", cfg.name(), r, t, t0.elapsed().as_secs_f64());
             }
         }
+        "hist" => {
+            // vcheck-bin hist <program-file> <solver-name-prefix> <goal> [<goal> ...]: one solver instance, goals in order
+            let text = std::fs::read_to_string(&args[2]).expect("read program");
+            let p = drive::load_program(&text).expect("program lowers");
+            let cfg = drive::SolverCfg::all_configs()
+                .into_iter()
+                .find(|c| c.name().starts_with(args[3].as_str()))
+                .expect("solver name");
+            let mut solver = drive::AnySolver::new(cfg);
+            for g in &args[4..] {
+                let peeled = drive::peel(&p, g).expect("goal lowers");
+                let (r, t) = solver.solve(&*p, &peeled.ugoal);
+                let fresh = drive::solve_fresh(&p, &peeled, cfg).0;
+                println!("{} :: {} -> {:?} (ticks {}) | fresh: {:?}", cfg.name(), g, drive::decode_caught(&p, &peeled, r), t, fresh);
+            }
+        }
         "count" => {
             for t in [false, true] {
                 for c in props::core_corpora(t, 0) {
